@@ -23,13 +23,14 @@ import (
 
 // Frame is one real execution context as seen by the instruction hook.
 type Frame struct {
-	ID   int    `json:"id"`
-	Par  int    `json:"par"`  // parent frame id, -1 for the entry script
-	Fl   int    `json:"fl"`   // call flags read from the real vm.Context
-	Req  int    `json:"req"`  // flags requested by the call that created it (-1: not a cross call)
-	Safe bool   `json:"safe"` // callee method marked safe in the callee's manifest
-	Kind string `json:"k"`    // r root | c contract call | d dynamic script | i intra-contract CALL | n call made by native code
-	Hash string `json:"h"`
+	ID   int          `json:"id"`
+	Par  int          `json:"par"`  // parent frame id, -1 for the entry script
+	Fl   int          `json:"fl"`   // call flags read from the real vm.Context
+	Req  int          `json:"req"`  // flags requested by the call that created it (-1: not a cross call)
+	Safe bool         `json:"safe"` // callee method marked safe in the callee's manifest
+	Kind string       `json:"k"`    // r root | c contract call | d dynamic script | i intra-contract CALL | n call made by native code
+	Hash string       `json:"h"`
+	Full util.Uint160 `json:"-"`
 }
 
 // Effect is an observed effect attributed to the frame that executed the instruction producing it.
@@ -166,7 +167,7 @@ func (m *monitor) step(h util.Uint160, ip int, op opcode.Opcode) {
 	m.stack = m.stack[:k]
 	m.ids = m.ids[:k]
 	for i := k; i < len(ist); i++ {
-		f := Frame{ID: m.nextID, Par: -1, Fl: int(ist[i].GetCallFlags()), Req: -1, Kind: "r", Hash: ist[i].ScriptHash().StringLE()[:8]}
+		f := Frame{ID: m.nextID, Par: -1, Fl: int(ist[i].GetCallFlags()), Req: -1, Kind: "r", Hash: ist[i].ScriptHash().StringLE()[:8], Full: ist[i].ScriptHash()}
 		m.nextID++
 		if i > 0 {
 			f.Par = m.ids[i-1]
@@ -191,10 +192,12 @@ func (m *monitor) pending(ctx *vm.Context, ip int, op opcode.Opcode) *pending {
 		if ip+5 > len(prog) {
 			return nil
 		}
-		name, err := interopnames.FromID(binary.LittleEndian.Uint32(prog[ip+1 : ip+5]))
-		if err != nil {
+		// the interop context's own table (interopnames.FromID does not know every name)
+		fn := m.ic.GetFunction(binary.LittleEndian.Uint32(prog[ip+1 : ip+5]))
+		if fn == nil {
 			return nil
 		}
+		name := fn.Name
 		es := ctx.Estack()
 		switch name {
 		case interopnames.SystemContractCall:
